@@ -2,6 +2,7 @@ import Infretis.Lemmas.RepexC05Count
 import Infretis.Lemmas.RepexC05Load
 import Infretis.Lemmas.RepexC03RRestore
 import Infretis.Lemmas.RepexC05Family
+import Infretis.Lemmas.PermSort
 /-!
 # C05 — the sampler never stalls: a job can always be drawn, sorting terminates
 
@@ -760,6 +761,75 @@ example : WF.cvVector [-1, 1, 5, -1] [0, 2, 4, 6] [false, false, false] none = .
 theorem wf_weight_vector_can_have_a_hole :
     WF.cvVector [-1, 1, 7, -1] [0, 2, 4, 6] [false, true, false] none = .ok [1, 0, 1, 0] :=
   cvVector_wf_hole
+
+/-! ### Outside the family the property FAILS on the code as it is (open known findings
+`C05:hole-weight-vector:sort-stalls`, `C05:hole-weight-vector:prob-assertion`; witnesses on the real code
+in corpus/C05/hole-vector-*.json).  The main theorems keep the family hypothesis. -/
+
+/-- the shooting path `-1, 1.5, 5` of the witness (orders doubled to stay in `Int`): interfaces
+    `0<1<2<3<4`, `[2+]` wire-fencing: weights `(1,1,0,1,0)` -/
+example : WF.cvVector [-2, 3, 10] [0, 2, 4, 6, 8] [false, false, true, false] none = .ok [1, 1, 0, 1, 0] := by
+  decide
+
+/-- the state `treat_output` hands to `sort_trajstate` in step 2 of the witness: two paths with the
+    hole vector in slots 1 and 2, the old `[1+]` path in slot 4 -/
+def exHole : St := { blank 6 1 50 2 7 0 [[-1]] [[0], [0], [0], [0], [0]] false [] with
+  toinitiate := -1,
+  W := [[1,0,0,0,0,0],[0,1,1,0,1,0],[0,1,1,0,1,0],[0,1,1,1,0,0],[0,1,1,0,0,0],[0,0,0,0,0,0]],
+  trajs := [some 0, some 5, some 6, some 3, some 2, none],
+  locks := [false, false, false, false, false, true] }
+
+/-- **`sort_terminates` fails outside the family**: the idle block of `exHole` is matchable (a valid
+    slot order exists: positive permanent) and every row is non-negative, yet `sort_trajstate` with the
+    scheduler's fuel runs out of fuel — the `while` loop swaps slots 3 and 4 forever. -/
+theorem sort_stalls_on_hole_counterexample :
+    0 < permC (idle exHole.W exHole.locks) ∧
+    sortTrajstate (sortFuel exHole) exHole = .error .stall ∧
+    sortTrajstate (1000) exHole = .error .stall := by
+  decide +kernel
+
+def exHoleW : Mat := [[1,0,0,0,0],[0,1,0,0,0],[0,1,1,0,0],[0,1,0,1,0],[0,0,0,0,0]]
+def exHoleL : List Bool := [false, true, false, false, true]
+
+def resIsAssert : Res → Bool
+  | .error .assert => true
+  | _ => false
+
+theorem exHole_prepare : prepare 1 exHoleW exHoleL =
+    { offset := 1, m := 3, sortIdx := [0, 1, 2], sorted := [[1,0,0],[0,1,0],[0,0,1]], equal := false } := by
+  unfold prepare
+  have h1 : ((idle exHoleW exHoleL).take (1 - ((exHoleL.take 1).filter (fun b => b)).length)).map
+      (fun r => (firstPos r : Int)) = [0] := by decide +kernel
+  have h2 : ((idle exHoleW exHoleL).drop (1 - ((exHoleL.take 1).filter (fun b => b)).length)).map
+      (fun r => -(firstPos r.reverse : Int)) = [-1, 0] := by decide +kernel
+  have a1 : argsort [0] = [0] := by simp [argsort, List.zipIdx]
+  have a2 : argsort [-1, 0] = [0, 1] := by
+    simp [argsort, List.zipIdx, List.mergeSort, List.MergeSort.Internal.splitInTwo]
+  simp only [h1, h2, a1, a2]
+  congr 1 <;> decide +kernel
+
+/-- **`pick_defined` fails outside the family on the code's algorithm**: with the hole row
+    `(1,0,1,0)` in slot 3 and `[0+]` locked (the zero-swap pick of the witness) the idle block is the
+    identity — the permanent ratios (`probMatrix`, the specification) are perfectly well defined —
+    but the model of the code's `inf_retis` (C02's `infRetis`: two argsorts, block decomposition)
+    ends in its row-sum assertion. -/
+theorem pick_undefined_on_hole_counterexample :
+    infRetis exHoleW exHoleL = .error .assert ∧
+    probMatrix exHoleW exHoleL = [[1,0,0,0,0],[0,0,0,0,0],[0,0,1,0,0],[0,0,0,1,0],[0,0,0,0,0]] := by
+  constructor
+  · have h0 : resIsAssert (infRetis exHoleW exHoleL) = true := by
+      unfold infRetis
+      simp only [exHole_prepare]
+      decide +kernel
+    revert h0
+    cases infRetis exHoleW exHoleL with
+    | ok P => intro h; simp [resIsAssert] at h
+    | monteCarlo d => intro h; simp [resIsAssert] at h
+    | error e => cases e <;> intro h <;> simp [resIsAssert] at h <;> rfl
+  · decide +kernel
+
+/-- the path `-1, 0.5, 4` of this witness (orders doubled): interfaces `0<1<2<3`, `[1+]` wire-fencing -/
+example : WF.cvVector [-2, 1, 8] [0, 2, 4, 6] [false, true, false] none = .ok [1, 0, 1, 0] := by decide
 
 /-- the accepted step of the restarted example, read as a `calc_cv_vector` outcome -/
 example : EvCv [0, 2, 4] (exRAt 3) (.step 0 .acc [[1, 1, 0]] { t := 2, e := 2 }) := by
